@@ -597,6 +597,30 @@ fn check_camera_range_forms(i: u64, r: &mut Report) {
     r.nontrivial();
 }
 
+/// A viewport set twice (a window resized, a split screen re-laid out): the second request, like the first, is confined to the
+/// frame the camera was created for - not to whatever the first request left.
+fn check_camera_viewport_twice(i: u64, r: &mut Report) {
+    r.eval();
+    let dims = (100u32, 100u32);
+    let rects = [(20u32, 20u32, 80u32, 80u32), (10, 10, 90, 90), (50, 50, 100, 100), (0, 0, 100, 100), (0, 0, 40, 30), (30, 60, 150, 140)];
+    let (first, second) = (rects[(i % 6) as usize], rects[(i / 6) as usize]);
+    let case = || obj! {"kind" => "camera-twice", "i" => i};
+    let cam = match caught(|| Camera::new(dims).mode(Mat4x4::<RealToReal<3, World, View>>::identity()).viewport((first.0..first.2, first.1..first.3)).viewport((second.0..second.2, second.1..second.3))) { Ok(c) => c, Err(p) => { r.violation(format!("camera-setup-panic|twice|{first:?}|{second:?}"), p, case()); return; } };
+    let (el, et, er, eb) = (second.0.min(dims.0), second.1.min(dims.1), second.2.min(dims.0), second.3.min(dims.1));
+    let mut bad = cam.dims != (er - el, eb - et);
+    for (nx, ny) in [(-1.0f32, -1.0f32), (1.0, 1.0)] {
+        let s = cam.viewport.apply_pt(&pt3(nx, ny, 1.0)).0;
+        let want = [el as f64 + (nx as f64 + 1.0) / 2.0 * (er as f64 - el as f64), et as f64 + (ny as f64 + 1.0) / 2.0 * (eb as f64 - et as f64)];
+        if (s[0] as f64 - want[0]).abs() > 1e-4 || (s[1] as f64 - want[1]).abs() > 1e-4 { bad = true; }
+    }
+    if bad {
+        let c0 = cam.viewport.apply_pt(&pt3(-1.0, -1.0, 1.0)).0; let c1 = cam.viewport.apply_pt(&pt3(1.0, 1.0, 1.0)).0;
+        r.violation(format!("camera-viewport-twice|first {first:?}|second {second:?}"), format!("Camera::new({dims:?}).viewport({first:?}).viewport({second:?}): the viewport is ({},{})..({},{}) with dims {:?}, expected the second request within the frame: ({el},{et})..({er},{eb})", c0[0], c0[1], c1[0], c1[1], cam.dims), case());
+        return;
+    }
+    r.nontrivial();
+}
+
 fn check_first_person(i: u64, r: &mut Report) {
     r.eval();
     let case = || obj! {"kind" => "fp", "i" => i};
@@ -773,6 +797,7 @@ fn run_proj(cfg: &Cfg) -> ! {
     rep.merge(par_range(cfg, 144 * 10 * 2, check_camera));
     rep.merge(par_range(cfg, 4 * 17 * 2, check_camera_range_forms));
     rep.merge(par_range(cfg, 72, check_camera_empty_viewport));
+    rep.merge(par_range(cfg, 36, check_camera_viewport_twice));
     // FirstPerson::default() is FirstPerson::new(): same view transform, also after a translate (nothing resets the heading)
     {
         rep.eval();
@@ -811,6 +836,7 @@ fn main() {
                 "camera-forms" => check_camera_range_forms(i, r),
                 "camera-empty" => check_camera_empty_viewport(i, r),
                 "fp-default" => { let (d, n) = (FirstPerson::default(), FirstPerson::new()); if caught(|| d.world_to_view().0) != caught(|| n.world_to_view().0) || caught(|| d.world_to_view()).is_err() { r.violation("fp-default|".into(), "FirstPerson::default() differs from new()".into(), J::Null); } }
+                "camera-twice" => check_camera_viewport_twice(i, r),
                 "fp" => check_first_person(i, r),
                 "fp-scale" => check_fp_look_at_scale(i, r),
                 k => machinery_error(&format!("unknown replay kind {k}")),
